@@ -385,11 +385,21 @@ pub fn scenario(name: &str, params: &Value) -> Scenario {
                 for i in 0..nf {
                     // the default-constructed options once, then all 36 explicit combinations
                     let k = chz.choose(37);
+                    // the filter's text: plain, wildcards, $-topics, a shared subscription and names that
+                    // merely begin like one (what the options mean to a server is the server's business;
+                    // only No Local on a real shared subscription is a protocol error and is left out)
+                    let shapes = ["f/{}", "$share/group/f/{}", "$shared/news/{}/#", "$sharepoint/+/{}", "$SYS/{}/#", "+/{}/+", "#", "a//{}/", "/"];
+                    // (with three filters per SUBSCRIBE the shapes vary in the first one only)
+                    let shape = if maxf > 2 && i > 0 { shapes[0] } else { shapes[chz.choose(shapes.len())] };
+                    let name = shape.replace("{}", &i.to_string());
+                    if name.starts_with("$share/") && k != 36 && (k / 3) % 2 == 1 {
+                        continue;
+                    }
                     let f = if k == 36 {
-                        FilterSpec::plain(&format!("f/{}", i))
+                        FilterSpec::plain(&name)
                     } else {
                         FilterSpec {
-                            filter: format!("f/{}", i),
+                            filter: name.clone(),
                             qos: Some((k % 3) as u8),
                             no_local: Some((k / 3) % 2 == 1),
                             retain_as_published: Some((k / 6) % 2 == 1),
